@@ -167,7 +167,7 @@ def replay(tag, trace, named, sup_dead):
 
 def run(ctx):
     prog, info = lc.load()
-    insts = [('ActorRuntime', 1, False, False), ('ActorRuntime', 1, True, False), ('ActorRuntime', 1, False, True)] if ctx.tier == 'quick' else \
+    insts = [('ActorRuntime', 1, False, False), ('ActorRuntime', 1, True, False), ('ActorRuntime', 1, False, True), ('ThreadLocalActorRuntime', 1, True, False)] if ctx.tier == 'quick' else \
         [('ActorRuntime', 1, False, False), ('ActorRuntime', 1, True, False), ('ActorRuntime', 2, True, False), ('ThreadLocalActorRuntime', 1, True, False),
          ('ActorRuntime', 1, False, True), ('ThreadLocalActorRuntime', 1, False, True)]
     for rt in sorted({i[0] for i in insts}):
